@@ -4,7 +4,9 @@ C14  Tagfilter neutralises exactly the disallowed raw HTML tags.
 `rewriteSpec` are written independently from the GFM "Disallowed Raw HTML" rule.
 -/
 import Comrak.Lemmas.TagFilter
+import Comrak.Lemmas.TagFilterSurv
 import Comrak.Html
+import Comrak.Drv.C14
 namespace Comrak.C14
 open Comrak Bytes
 
@@ -141,5 +143,56 @@ example : disallowedAt [0x3C, 0x2F, 0x58, 0x4D, 0x70, 0x20] = true := by decide 
 example : disallowedAt [0x3C, 0x78, 0x6D, 0x70, 0x73, 0x3E] = false := by decide     -- "<xmps>"
 example : rewriteSpec [0x61, 0x3C, 0x78, 0x6D, 0x70, 0x3E, 0x3C, 0x62, 0x3E] =
     [0x61] ++ S.v_lt ++ [0x78, 0x6D, 0x70, 0x3E, 0x3C, 0x62, 0x3E] := by decide
+
+/-! ## No disallowed tag survives in an HTML block
+
+`survivorsW sp out` (Lemmas/TagFilterSurv.lean) counts the positions `p` of `out` that hold a `<` with
+`disallowedAtW sp (out.drop p)`; `survivorsC` uses comrak's white-space class, `survivorsH` the HTML
+tokenizer's.  Two facts are needed: a `<` rewritten to `&lt;` leaves no `<` behind, and the decision taken at a
+*kept* `<` is the same on the output as on the input (`disallowedAtW_rewrite`: the bytes it reads - optional `/`,
+name letters, one delimiter byte, possibly `>` - are never `<`, and a later `<` that becomes `&` is a mismatch /
+non-delimiter either way). -/
+
+/-- **C14: no GFM-disallowed tag survives in a filtered HTML block** (comrak's own white-space class),
+    for every literal. -/
+theorem no_disallowed_survives (l : Bytes) : survivorsC (tagfilterBlock l) = 0 := by
+  rw [tagfilterBlock_eq_rewriteC]
+  exact survivorsW_rewrite isSpace spOk_isSpace l
+
+/-- The same with the HTML tokenizer's white space (tab, LF, FF, CR, space) on every literal without form feed. -/
+theorem no_disallowed_survives_partial (l : Bytes) (h : (0x0C : UInt8) ∉ l) :
+    survivorsH (tagfilterBlock l) = 0 := by
+  rw [tagfilterBlock_eq_rewriteSpec_partial l h]
+  exact survivorsW_rewrite htmlSpace spOk_htmlSpace l
+
+/-- The excluded point again: `<title\f` is kept and is a disallowed tag for an HTML tokenizer. -/
+theorem no_disallowed_survives_formfeed_counterexample :
+    survivorsH (tagfilterBlock [0x3C, 0x74, 0x69, 0x74, 0x6C, 0x65, 0x0C]) = 1 := by decide
+
+/-- The counter the harness asks the driver for (`survivors`, Drv/C14.lean) is `survivorsH`. -/
+theorem drv_survivors_eq (out : Bytes) : Comrak.Drv.C14.survivors out = survivorsH out := by
+  induction out with
+  | nil => rfl
+  | cons b r ih =>
+    simp only [Comrak.Drv.C14.survivors, survivorsH, survivorsW, disallowedAt] at ih ⊢
+    rw [ih]
+    rfl
+
+/-- The filtered inline literal: its only rewritten position is the first byte, and after the rewrite that
+    position holds no `<`. -/
+theorem inline_first_not_disallowed (l : Bytes) :
+    disallowedAtC (if disallowedAtC l then S.v_lt ++ l.drop 1 else l) = false := by
+  by_cases hd : disallowedAtC l = true
+  · simp only [hd, if_true]; simp [disallowedAtC, disallowedAtW, S.v_lt]
+  · simp only [hd]; simpa using hd
+
+/-! Non-vacuity: a block with two disallowed tags, one allowed tag and a `<` directly after a tag name. -/
+example : survivorsC [0x3C, 0x78, 0x6D, 0x70, 0x3E, 0x3C, 0x62, 0x3E, 0x3C, 0x2F, 0x58, 0x4D, 0x50, 0x3E] = 2 := by decide
+example : survivorsC (tagfilterBlock [0x3C, 0x78, 0x6D, 0x70, 0x3E, 0x3C, 0x62, 0x3E, 0x3C, 0x2F, 0x58, 0x4D, 0x50, 0x3E]) = 0 := by
+  decide
+-- "<xmp<xmp>" : the first `<` is not disallowed (delimiter position holds `<`), the second is; after the rewrite
+-- the first is followed by `xmp&lt;xmp>` and still is not disallowed.
+example : tagfilterBlock [0x3C, 0x78, 0x6D, 0x70, 0x3C, 0x78, 0x6D, 0x70, 0x3E] =
+    [0x3C, 0x78, 0x6D, 0x70] ++ S.v_lt ++ [0x78, 0x6D, 0x70, 0x3E] := by decide
 
 end Comrak.C14
